@@ -132,6 +132,22 @@ func LinkKey(k int) enc.SharedKey {
 	return sk
 }
 
+// LinkKeyBytes returns the 32 key bytes of shared key number k in a fresh buffer.
+func LinkKeyBytes(k int) []byte {
+	h := sha256.Sum256([]byte(fmt.Sprintf("verif-linkkey-%d", k)))
+	return append([]byte(nil), h[:]...)
+}
+
+// IOFromBuffer builds a link-key codec from the key bytes found in buf right now. What the caller does with buf
+// afterwards (wipe it, load another key into it) is the caller's business.
+func IOFromBuffer(buf []byte) iface.IO {
+	sk, err := enc.NewSecretbox(buf)
+	if err != nil {
+		panic(err)
+	}
+	return baseCBOR().ApplyOptions(&cbor.Options{LinkKey: sk})
+}
+
 var (
 	ioMu    sync.Mutex
 	ioCache = map[string]iface.IO{}
